@@ -80,15 +80,18 @@ Restart == /\ cur' = "" /\ unsaved' = {} /\ res' = R("restart", {}) /\ UNCHANGED
 \* records fsynced, so recovery of every database restores exactly the promise
 CrashRestart == /\ cur' = "" /\ unsaved' = {} /\ res' = R("crash", {}) /\ UNCHANGED <<dbs, content>>
 
-\* CREATE TABLE of a table other than t in the selected database ("filler" steps of the replayed paths): nothing this
-\* module talks about changes, except that the database has something unsaved - the step the specification takes is
-\* (almost) a stuttering step, so every promise of a path stands when such steps are put into it
-OtherTable == /\ cur # "" /\ unsaved' = unsaved \cup {cur} /\ UNCHANGED <<dbs, cur, content, res, ticked>>
+\* CREATE TABLE of a table other than t in the selected database: nothing the promises talk about changes (how many
+\* such tables there are is not part of the state; the replayed paths also get eight of them in a row, which makes the
+\* catalog's own tree grow a level)
+OtherTable ==
+  IF cur = "" THEN res' = ERR /\ UNCHANGED <<dbs, cur, content, unsaved>>
+  ELSE /\ unsaved' = unsaved \ {cur}          \* CREATE TABLE ends with its own flush
+       /\ res' = OK /\ UNCHANGED <<dbs, cur, content>>
 
 SessNext == \/ Tick
             \/ /\ ticked' = FALSE
                /\ \/ \E n \in Names : CreateDb(n) \/ Use(n)
-                  \/ Show \/ CreateTable \/ Restart \/ CrashRestart
+                  \/ Show \/ CreateTable \/ OtherTable \/ Restart \/ CrashRestart
                   \/ \E v \in Vals : Insert(v) \/ Delete(v)
 
 -----------------------------------------------------------------------------
